@@ -745,7 +745,10 @@ class ChoiceEncoder(AbstractItemEncoder):
             name = names[0]
 
             component = value[name]
-            asn1Spec = asn1Spec[name]
+
+            # the alternative's type, taken from the schema without
+            # selecting that alternative in the guiding object
+            asn1Spec = asn1Spec.componentType[name].asn1Object
 
         return encodeFun(component, asn1Spec, **options), True, True
 
